@@ -3,11 +3,13 @@ use std::path::Path;
 
 pub mod c21;
 pub mod c23;
+pub mod c28;
 
 pub fn for_property(p: &str) -> Vec<Suite> {
     match p {
         "C21" => c21::suites(),
         "C23" => c23::suites(),
+        "C28" => c28::suites(),
         _ => vec![],
     }
 }
